@@ -290,7 +290,7 @@ func GenResultPrec(t *rapid.T, label string, around int, max int) uint {
 }
 
 func GenHist(t *rapid.T, label string) string {
-	return rapid.SampledFrom([]string{"", "", "", "acc", "cap", "stale"}).Draw(t, label)
+	return rapid.SampledFrom([]string{"", "", "", "acc", "cap", "stale", "hugecap"}).Draw(t, label)
 }
 
 // GenFinite draws a finite Spec (value, precision >= digits, mode, history).
